@@ -118,6 +118,9 @@ def run(ctx):
     want = 5 * 10 ** int(args[args.index("-exh") + 1])
     ctx.oblige("bounded-exhaustive family: all %d (script of length %s over the 10 outcomes, retries 0-4) combinations ran"
                % (want, args[args.index("-exh") + 1]), len(combos) == want or bool(only))
+    longs = [c for c in live if c["kind"] == "long"]
+    ctx.oblige("long-budget family (retries 31, 32, 33, 40, 64): every action ran",
+               bool(only) or (len(longs) > 0 and all(c["dist"].get("never_ran", 1) == 0 for c in longs)))
     samples = []
     for c in live[:1] + live[-2:]:
         o = c["observed"]["actions"][:3]
@@ -131,7 +134,9 @@ def run(ctx):
              "attempts); non-trivial = at least one action ran. Bounded-exhaustive: every script of length k over the 10 outcomes "
              "{overrun} + {nil, good, wrong-typed response} x {no, transient, permanent error} x retries 0..4 (quick: k=3, 5000 "
              "combinations; thorough: k=4, 50000), each once, as a sequence or as a check action by the seed, laid out over plans so "
-             "that each one runs; random: 1-3 sequences x 1-3 actions, each of the "
+             "that each one runs; long budget: retries 31/32/33/40/64 with scripts transient for the whole budget or ending ok / permanent / wrong-typed at "
+             "attempt 30-45 (plugin safety net: permanent error from call retries+10 on); scripted errors carry an EMPTY message with "
+             "p = .3; random: 1-3 sequences x 1-3 actions, each of the "
              "10 check groups with p=.35, scripts of length 0-6, retries 0-4, conc 1-3, tolerance -1..2",
         samples=samples,
         traces_validated_against_impl=runs,
